@@ -49,25 +49,25 @@ def spec(tier):
                  ht("hooks", "adv16tail", 100, first=1000, **kw), ht("hooks", "incompat", 30, first=1000, **kw)]
         jobs += spread("hooks", "adversarial", 8, 2, base=1000, **kw)
     else:
-        jobs += spread("asan", "base32", 1500, 4, maxlen=4096, **kw) + spread("asan", "base32hex", 1500, 2, maxlen=4096, **kw)
-        jobs += spread("asan", "base64", 1500, 4, maxlen=4096, **kw)
-        jobs += spread("asan", "utf8iso", 1000, 4, maxlen=4096, **kw) + spread("asan", "utf16even", 2000, 4, maxlen=4096, **kw)
-        jobs += spread("asan", "utfany", 600, 4, maxlen=4096, **kw)
-        jobs += spread("asan", "adversarial", 80, 8, maxlen=4096, **kw)
-        jobs += spread("asan", "incompat", 300, 2, **kw) + spread("asan", "exhaustive", 60, 2, **kw)
-        jobs += spread("asan", "utf8to16", 800, 2, maxlen=4096, **kw) + spread("asan", "utf16odd", 400, 2, maxlen=4096, **kw)
-        jobs += spread("asan", "adv8any", 60, 2, **kw) + spread("asan", "adv16odd", 40, 2, **kw)
-        jobs += [ht("asan", "adv16tail", 200, **kw)] + spread("asan", "chain", 20, 2, **kw)
+        jobs += spread("asan", "base32", 1000, 4, maxlen=4096, **kw) + spread("asan", "base32hex", 1000, 2, maxlen=4096, **kw)
+        jobs += spread("asan", "base64", 1000, 4, maxlen=4096, **kw)
+        jobs += spread("asan", "utf8iso", 700, 4, maxlen=4096, **kw) + spread("asan", "utf16even", 1500, 4, maxlen=4096, **kw)
+        jobs += spread("asan", "utfany", 400, 4, maxlen=4096, **kw)
+        jobs += spread("asan", "adversarial", 50, 8, maxlen=4096, **kw)
+        jobs += spread("asan", "incompat", 300, 2, **kw) + spread("asan", "exhaustive", 40, 2, **kw)
+        jobs += spread("asan", "utf8to16", 500, 2, maxlen=4096, **kw) + spread("asan", "utf16odd", 300, 2, maxlen=4096, **kw)
+        jobs += spread("asan", "adv8any", 40, 2, **kw) + spread("asan", "adv16odd", 30, 2, **kw)
+        jobs += [ht("asan", "adv16tail", 200, **kw)] + spread("asan", "chain", 10, 2, **kw)
         b = 100000
-        jobs += spread("hooks", "base32", 4000, 2, base=b, maxlen=4096, **kw) + spread("hooks", "base64", 4000, 2, base=b, maxlen=4096, **kw)
+        jobs += spread("hooks", "base32", 3000, 2, base=b, maxlen=4096, **kw) + spread("hooks", "base64", 3000, 2, base=b, maxlen=4096, **kw)
         jobs += [ht("hooks", "base32hex", 2000, first=b, maxlen=4096, **kw)]
-        jobs += spread("hooks", "utf8to16", 3000, 4, base=b, maxlen=4096, **kw) + spread("hooks", "utf16even", 6000, 2, base=b, maxlen=4096, **kw)
-        jobs += spread("hooks", "utf16odd", 2500, 4, base=b, maxlen=4096, **kw) + spread("hooks", "utfany", 2500, 2, base=b, maxlen=4096, **kw)
-        jobs += spread("hooks", "adversarial", 200, 8, base=b, maxlen=4096, **kw)
-        jobs += spread("hooks", "adv8any", 600, 4, base=b, maxlen=4096, **kw) + spread("hooks", "adv16odd", 400, 4, base=b, maxlen=4096, **kw)
+        jobs += spread("hooks", "utf8to16", 2000, 4, base=b, maxlen=4096, **kw) + spread("hooks", "utf16even", 4000, 2, base=b, maxlen=4096, **kw)
+        jobs += spread("hooks", "utf16odd", 1500, 4, base=b, maxlen=4096, **kw) + spread("hooks", "utfany", 1500, 2, base=b, maxlen=4096, **kw)
+        jobs += spread("hooks", "adversarial", 150, 8, base=b, maxlen=4096, **kw)
+        jobs += spread("hooks", "adv8any", 400, 4, base=b, maxlen=4096, **kw) + spread("hooks", "adv16odd", 300, 4, base=b, maxlen=4096, **kw)
         jobs += [ht("hooks", "adv16tail", 1000, first=b, **kw), ht("hooks", "incompat", 300, first=b, **kw)]
 
-    m = 1 if q else 20
+    m = 1 if q else 60
     floors = {
         "cases": 1500000 * m,
         "transforms_called": 2000000 * m,
